@@ -487,7 +487,7 @@ CLAIMED = {
         'listed positions for look-ups, IFS, SWITCH / the IF rule / none for '
         'the error-handling and inspection functions). TLC enumerates per '
         'signature class every tuple of up to three argument descriptors over '
-        '19 kinds (numbers, text, numeric text, empty text, logicals, blank '
+        '21 kinds (numbers, text, numeric text, date text inside and beyond the calendar, empty text, logicals, blank '
         'reference, #N/A, #DIV/0!, referenced row / column / row holding an '
         'error / mixed row, array literals with and without an error) and all '
         'pairs of positions for longer calls, and checks Total / ErrorKept on '
